@@ -51,6 +51,8 @@ LEVEL_TEXT = ("Sub-check of C03. Lean theorems (lean/BarterModel/Props/C03R.lean
               "positive reference, is >= 0, 0 iff equal, symmetric in the sign of the deviation, scale invariant, None for a zero reference, and is the "
               "NEGATED documented value for a negative reference; calculate_delta = +/- delta x size x quantity, Sell = -Buy, additive in quantity, sign "
               "and magnitude bounds; DefaultRiskManager approves every request, in order, with multiplicity, refuses nothing, independent of state, and "
-              "satisfies the conservation contract of RiskManager. The model is tied to the code by running the same ops through the real functions.")
+              "satisfies the conservation contract of RiskManager (approved ++ refused is a permutation of the input; also proved for every per-request "
+              "verdict, the shape the C03 engine model assumes, of which DefaultRiskManager is the instance `never refuse`); composed: a max-notional check "
+              "refuses exactly q*p*cs > limit, a max-deviation check accepts exactly other*(1-limit) <= current <= other*(1+limit). The model is tied to the code by running the same ops through the real functions.")
 LEVEL_NOTE = ("Trusted: Lean kernel (axioms propext/Classical.choice/Quot.sound only); the hand-written model tied by sampled correspondence; harness and "
               "driver. Decimal rounding not modelled; overflow modelled as |exact result| > 2^96-1.")
